@@ -161,7 +161,14 @@ func ReportElement(dbStream io.Reader, rec ReportElementConfig) error {
 		return err
 	}
 	var list []shared.Element
-	for name, node := range nl {
+	names := make([]string, 0, len(nl))
+	for name := range nl {
+		names = append(names, name)
+	}
+	// fixed starting order, so that the stable sort breaks ties by name
+	sort.Strings(names)
+	for _, name := range names {
+		node := nl[name]
 		for _, el := range node.Elements {
 			if el.Name == rec.ElementName {
 				list = append(list, shared.NewElement(name, el.Value))
